@@ -166,7 +166,7 @@ class PdbWorld:
         return t
 
 
-def save_and_load_store(ctx, key, world, have_cell=True):
+def save_and_load_store(ctx, key, world, have_cell=True, save_kwargs=None):
     """save_hdf5 / save_netcdf followed by load_hdf5 / load_netcdf: the file class is a model object on growing arrays (sa/h5model.py, sa/stores.py) whose
     write / read / read_as_traj / seek are evaluated from the class's source.  -> the Trajectory object the loader builds"""
     from . import h5model as H, stores as S
@@ -184,8 +184,9 @@ def save_and_load_store(ctx, key, world, have_cell=True):
         kw = {k.arg: ev.ex(k.value) for k in call.keywords}
         mode = a[1] if len(a) > 1 else kw.get("mode", "r")
         if key == "h5":
-            if mode == "w":
+            if mode == "w" or (mode == "a" and "nodes" not in state):      # append mode on a path that does not exist yet creates the file
                 me = H.h5_file(ctx, "w", n_atoms=world.n_atoms)
+                me.mode = mode
                 state["nodes"] = me._nodes
             else:
                 me = H.h5_file(ctx, "r", n_atoms=world.n_atoms, nodes=state["nodes"], first_write=False)
@@ -212,7 +213,7 @@ def save_and_load_store(ctx, key, world, have_cell=True):
         ts.module_env = dict(ts.module_env, **{cls: Obj(distance_unit=file_unit)})
         return ts
     name = {"h5": "hdf5", "nc": "netcdf"}[key]
-    mk(TRAJ).run_fn(ctx.py.func(TRAJ, "Trajectory.save_" + name), self=traj, filename="FILE")
+    mk(TRAJ).run_fn(ctx.py.func(TRAJ, "Trajectory.save_" + name), self=traj, filename="FILE", **(save_kwargs or {}))
     if key == "h5":
         state["top"] = getattr(state["last"], "topology", None)
     given = {"filename": "FILE"}
